@@ -111,6 +111,11 @@ def main(pid):
         wit = {"origin": c["origin"], "text": c.get("text") or layout.render(c["toks"])}
         if ob[0] == "parse-reject":
             continue    # C01's business
+        if ob[0] == "impossible-tree":
+            if "type" in mine:
+                wit["detail"] = ob[2]
+                rep.violation("instantiated-tree-has-impossible-shape", "", wit)
+            continue
         if ob[0] == "exc":
             if not experr and "outcome" in mine:
                 wit["detail"] = "instantiation raised %s: %s but the module is instantiable per spec" % (ob[1], ob[2])
